@@ -37,7 +37,7 @@ func ReadYamlString(s string) (JsonNode, error) {
 }
 
 func unmarshal(bytes []byte, fn func([]byte, interface{}) error) (JsonNode, error) {
-	if strings.TrimSpace(string(bytes)) == "" {
+	if strings.Trim(string(bytes), " \t\r\n") == "" {
 		return voidNode{}, nil
 	}
 	var v interface{}
